@@ -197,7 +197,7 @@ def _execute_one(spec):
         viols.append({"property": "C20", "invariant": inv, "msg": msg, "features": list(feats), "input": [m["text"] for m in spec["mols"]]})
 
     old = signal.signal(signal.SIGALRM, _alarm)
-    signal.alarm(300)
+    signal.alarm(700)
     try:
         with world:
             mgs = []
